@@ -121,6 +121,16 @@ def chk_stencil(case, acc, seed):
         ew = (float((wts * np.arange(shape[0])[:, None]).sum() / sw), float((wts * np.arange(shape[1])[None, :]).sum() / sw))
         if abs(gw[0] - ew[0]) > 1e-12 or abs(gw[1] - ew[1]) > 1e-12:
             acc.violation('centroid:weighted', sub, f'{gw} != {ew}')
+        # samples of both signs (non-zero total): still the first moment over the plain sum
+        sgn = m * np.where((np.arange(m.size).reshape(shape) % 3) == 1, -1.0, 2.0) * (1 + np.arange(m.size).reshape(shape) % 2)
+        ssum = sgn.sum()
+        if abs(ssum) >= 1:
+            gs = lentil.centroid(sgn)
+            es = (float((sgn * np.arange(shape[0])[:, None]).sum() / ssum), float((sgn * np.arange(shape[1])[None, :]).sum() / ssum))
+            if abs(gs[0] - es[0]) > 1e-9 or abs(gs[1] - es[1]) > 1e-9:
+                acc.violation('centroid:signed', sub, f'{gs} != sum(i * img) / sum(img) = {es} for an image with negative samples')
+            if (sgn < 0).any():
+                acc.cls('centroid:signed')
     acc.cls('stencil')
     acc.case(case, outcome='stencil')
 
@@ -291,7 +301,25 @@ def chk_hex(case, acc, seed):
     acc.case(case, outcome=f'hex-{rings}-{gap}-{rotate}-{len(drop)}')
 
 
-DISPATCH = {'pad': chk_pad, 'stencil': chk_stencil, 'subarray': chk_subarray, 'rebin': chk_rebin, 'shape': chk_shape, 'hex': chk_hex}
+def chk_hex_history(case, acc, seed):
+    """the aperture is a function of its arguments: the same call cold and after a call with another ring count"""
+    import lentil
+    kw = dict(seg_radius=case['radius'], seg_gap=case['gap'], rotate=case['rotate'], antialias=False)
+    engine.reset_library_state()
+    cold = lentil.hex_segments(case['rings'], **kw)
+    engine.reset_library_state()
+    lentil.hex_segments(case['before'], **kw)
+    warm = lentil.hex_segments(case['rings'], **kw)
+    if cold.shape != warm.shape or not np.array_equal(cold, warm):
+        acc.violation('hex:history-dependent', case, f'hex_segments({case["rings"]}) after hex_segments({case["before"]}): {warm.shape[0]} segments, cold {cold.shape[0]}')
+    again = lentil.hex_segments(case['rings'], **kw)
+    if again.shape != cold.shape or not np.array_equal(again, cold):
+        acc.violation('hex:history-dependent', case, 'third call differs')
+    acc.cls('hex-history')
+    acc.case(case, outcome='hex-history')
+
+
+DISPATCH = {'hexhist': chk_hex_history, 'pad': chk_pad, 'stencil': chk_stencil, 'subarray': chk_subarray, 'rebin': chk_rebin, 'shape': chk_shape, 'hex': chk_hex}
 
 
 def t_pad(arg, acc):
@@ -335,6 +363,18 @@ def t_misc(arg, acc):
 
 def t_hex(arg, acc):
     tier, seed, rings = arg['tier'], arg['seed'], arg['rings']
+    if arg['shard'] == 0:
+        for before in (1, 2, 3, 4):
+            for rotate in (False, True):
+                if before != rings:
+                    chk_hex_history({'kind': 'hexhist', 'rings': rings, 'before': before, 'radius': 5, 'gap': 1, 'rotate': rotate}, acc, seed)
+        if rings <= 2:
+            # large segments: sub-pixel geometry errors (orientation, spacing) become whole pixels
+            for R in (13, 16.5):
+                for gap in (0.5, 1, 2):
+                    for rotate in (False, True):
+                        for drop in ((), (1,), (0,)):
+                            chk_hex({'kind': 'hex', 'rings': rings, 'radius': R, 'gap': gap, 'rotate': rotate, 'drop': drop}, acc, seed)
     nseg = 1 + 3 * rings * (rings + 1)
     drops = [()] + [(d,) for d in range(nseg)]
     pairs = list(itertools.combinations(range(nseg), 2))
@@ -376,7 +416,7 @@ def run(tier, seed, acc, procs=None):
         'bounds': {'pad_max': nmax, 'stencil_array': st_shape, 'hex_rings': [1, 2, 3], 'hex_gaps': [0, 0.5, 1, 2.5]},
         'assumptions': ['hexagon radii are chosen so that no pixel centre lies exactly on a vertex (a floating-point tie)', 'segment area tolerance 6R*0.75+2 pixels (edge sampling of a hexagon of perimeter 6R)'],
         'require': {'pad:2d': 30, 'pad:cube': 90, 'stencil': 10, 'subarray': 4, 'rebin': 30, 'shape:circle': 20, 'shape:hexagon': 10,
-                    'shape:rectangle-30': 10, 'hex:rings=1': 50, 'hex:rings=3': 50, 'hex:gap=0': 50},
+                    'shape:rectangle-30': 10, 'hex:rings=1': 50, 'hex:rings=3': 50, 'hex:gap=0': 50, 'centroid:signed': 100, 'hex-history': 12},
     }
 
 
